@@ -488,11 +488,19 @@ impl GenCfg {
     }
 }
 
-const TEXTS: [&str; 16] = [
+const TEXTS: [&str; 21] = [
     "hello ", "\n", " ", "é∑ü ", "{ ", " }", "%", "a}b", "<b>", "</b>", "x", "-", "1,2", "Ünï", "{ z", "tail\n",
+    // long literals whose char boundaries fall on even / odd / multiple-of-3 / multiple-of-4 byte
+    // offsets respectively: code that slices text at a fixed byte offset hits the inside of a
+    // character in at least one of them
+    "ÄäÖöÜüßÄäÖöÜüßÄäÖöÜüßÄäÖöÜüßÄäÖöÜüßÄäÖöÜüß",
+    "xÄäÖöÜüßÄäÖöÜüßÄäÖöÜüßÄäÖöÜüßÄäÖöÜüßÄäÖöÜüß",
+    "∑∑∑∑∑∑∑∑∑∑∑∑∑∑∑∑∑∑∑∑∑∑∑∑∑∑∑∑∑∑",
+    "😀😀😀😀😀😀😀😀😀😀😀😀😀😀😀😀😀😀😀😀",
+    "Lorem ipsum dolor sit amet, consectetur adipiscing elit, sed do eiusmod tempor incididunt ut labore.",
 ];
 
-const STRS: [&str; 13] = ["", " ", "a", "b", "Abc def", "1", "2.5", "true", "é∑", "x,y,z", ",", ", ", "a "];
+const STRS: [&str; 14] = ["", " ", "a", "b", "Abc def", "1", "2.5", "true", "é∑", "x,y,z", ",", ", ", "a ", "xÄäÖöÜüß∑😀ÄäÖöÜüß∑😀ÄäÖöÜüß∑😀"];
 
 pub struct Gen<'a> {
     pub rng: &'a mut Rng,
